@@ -160,6 +160,32 @@ def run_C05(res):
                                    "moves a2a3", "history", "quit"])
         scripts.insert(0, [f"setoption name UCI_Chess960 value {frc}", "isready", "ucinewgame", f"position startpos moves {g1} e1h1", "history",
                            "position fen bnrqkrnb/pppppppp/8/8/8/8/PPPPPPPP/BNRQKRNB w KQkq - 0 1 moves g1f3 g8f6 e1f1 e8f8 h1g2", "print", "history", "quit"])
+    # a conventional castling string as the SECOND (third, …) token of one `moves` list, the two sides having different castling-rook
+    # files: whatever the parser caches across tokens must follow the side to move
+    cands = [l for l in run_driver([f"gpattern {res.seed + 43} 0 {2500 * res.escalate if res.tier == 'quick' else 30000} 1"]) if l and l != "bad-op"]
+    cands = [p for p in cands if (Pos(p).piece(5) & Pos(p).c1).bit_length() - 1 == 60 and (Pos(p).t[14] == "1" or Pos(p).t[15] == "1")
+             and (Pos(p).t[16], Pos(p).t[17]) != (Pos(p).t[18], Pos(p).t[19])]
+    okc = in_domain(cands)
+    cands = [p for p, o in zip(cands, okc) if o][: (120 if res.tier == "quick" else 1200)]
+    cf = run_hx(["fenout " + p for p in cands])
+    cm = run_hx(["moves " + p for p in cands])
+    for p, f, ml in zip(cands, cf, cm):
+        P = Pos(p)
+        quiet = [m for m in parse_moves(ml) if not ((P.c0 | P.c1) >> m[1]) & 1 and m[2] == 6 and not (P.piece(5) >> m[0]) & 1 and not (P.piece(3) >> m[0]) & 1]
+        if not quiet or f in ("PANIC", "DIED"):
+            continue
+        p1 = str(P.with_(frc=1))
+        for m in rnd.sample(quiet, min(3, len(quiet))):
+            tok = uci_oracle(Pos(p1), m)
+            after = run_hx([f"apply {p1} {tok}"])[0]
+            if after in ("PANIC", "DIED") or not after.endswith("u=0 h=1"):
+                continue
+            p2 = " ".join(after.split()[:22])
+            for cs, differ in zip((("e1g1", "e1c1") if P.black else ("e8g8", "e8c8")), (P.t[16] != P.t[18], P.t[17] != P.t[19])):
+                r2 = run_hx([f"apply {p2} {cs}"])[0]
+                if differ and r2.endswith("u=0 h=1"):       # the conventional string denotes a legal castling there
+                    scripts.insert(0, ["setoption name UCI_Chess960 value true", "isready", f"position fen {f} moves {tok} {cs}", "print", "history", "quit"])
+    res.count("second_token_castling_scripts", sum(1 for sc in scripts if len(sc) == 6 and sc[2].startswith("position fen") and sc[2].split()[-1] in CASTLE_STRINGS))
     # Unicode white space glued to a token: `split_ascii_whitespace` does not split on U+000B, U+0085, U+00A0, U+2003, U+3000, so a move
     # token carrying one denotes no legal move and must be reported as unknown; a command word carrying one is an unknown command
     for ws in ("\u00a0", "\x0b", "\u0085", "\u3000", "\u2003"):
@@ -302,6 +328,10 @@ CORPUS_SCRIPTS = [
     ["isready", "position fen \x0brnbqkbnr/pppppppp/8/8/8/8/PPPPPPPP/RNBQKBNR w KQkq - 0 1 moves e2e4", "print", "history", "go depth 1", "quit"],
     ["isready", "position fen \u00a0\u2003rnbqkbnr/pppppppp/8/8/8/8/PPPPPPPP/RNBQKBNR w KQkq - 0 1\u0085 moves e2e4 e7e5", "print", "history", "quit"],
     ["isready", "position fen rnbqkbnr/pppppppp/8/8/8/8/PPPPPPPP/RNBQKBNR w KQkq - 0 1\u3000", "print", "go depth 1", "quit"],
+    # the largest counts the u8 arguments admit, on positions where they are cheap (no legal move / a fully blocked position)
+    ["isready", "position fen 7k/5Q2/6K1/8/8/8/8/8 b - - 0 1", "go perft 255", "go split 255", "go perft 254", "isready", "quit"],
+    ["isready", "position fen R6k/6pp/8/8/8/8/8/7K b - - 0 1", "go perft 255", "go split 255", "isready", "quit"],
+    ["isready", "position fen 8/8/4k3/p1p1p1p1/P1P1P1P1/8/4K3/8 w - - 0 1", "go perft 3", "go split 2", "go depth 12", "isready", "quit"],
     ["go depth 1"],
     ["print"],
     [],
